@@ -187,6 +187,12 @@ Definition reflect_batch (SO : stf_oracle) (pre post : wstate) (txs : list tx) (
                     && existsb (fun t => existsb (fun i => match stake_spec pre txs !! fst i with Some _ => true | None => false end) (t_inputs t)) txs)) 2
   (* C18 *)
   ++ flag 18 (s_dosc_speed pre <=? s_dosc_speed post) 1
+  ++ match load_relevant_coins pre txs with
+     | Ok relevant =>
+       flag 18 (forallb (fun t => negb (txkind_eqb (t_kind t) KDoscMint) ||
+                          match validate_doscmint SO pre relevant t with Ok _ => true | _ => false end) txs) 3
+     | _ => []
+     end
   (* C19 *)
   ++ flag 19 (negb ((s_network pre =? MAINNET) && existsb (fun t => txkind_eqb (t_kind t) KFaucet && negb (is_bug_tx t)) txs)) 1
   ++ flag 19 (forallb (fun t => negb (txkind_eqb (t_kind t) KFaucet) || is_bug_tx t ||
@@ -198,6 +204,69 @@ Definition reflect_batch (SO : stf_oracle) (pre post : wstate) (txs : list tx) (
 Definition is_pool_request (t : tx) : bool :=
   (txkind_eqb (t_kind t) KSwap || txkind_eqb (t_kind t) KLiqDeposit || txkind_eqb (t_kind t) KLiqWithdraw)
   && match tx_pool t with Some _ => true | None => false end.   (* the data is the canonical name of a pool *)
+
+(* C15, "the reserves move by exactly the amounts taken from or paid into coins": for a pool that neither
+   the peg nor the subsidies touch, reserve + request coins is conserved on each side: never exceeded, and
+   short by less than one unit per request (the rounding of the shares) as long as no 128-bit clamp is near *)
+Definition coin_val (d : denom) (m : gmap N cdh) (k : N) : N :=
+  match m !! k with
+  | Some c => if denom_eqb (cd_denom (c_data c)) d then cd_value (c_data c) else 0
+  | None => 0
+  end.
+Definition nsum (l : list N) : N := fold_left N.add l 0.
+Definition pool_flow_ok (pre post : wstate) (k : denom * denom) (reqs : list tx) : bool :=
+  let keys := flat_map (fun t => [coin_key (t_hash t) 0; coin_key (t_hash t) 1]) reqs in
+  let res (s : wstate) (sel : pool -> N) := match get_pool s k with Some p => sel p | None => 0 end in
+  let small := forallb (fun s => (res s p_lefts <? 2 ^ 100) && (res s p_rights <? 2 ^ 100) && (res s p_liqs <? 2 ^ 100)) [pre; post]
+               && forallb (fun key => forallb (fun s : wstate => match s_coins s !! key with Some c => cd_value (c_data c) <? 2 ^ 100 | None => true end) [pre; post]) keys in
+  let side (d : denom) (sel : pool -> N) :=
+    let a := res post sel + nsum (map (coin_val d (s_coins post)) keys) in
+    let b := res pre sel + nsum (map (coin_val d (s_coins pre)) keys) in
+    (a <=? b) && (negb small || (b - a <=? N.of_nat (length reqs))) in   (* each pro-rata share is rounded down: < 1 unit of dust per request *)
+  side (fst k) p_lefts && side (snd k) p_rights.
+Definition pool_flows (legacy_deposits : bool) (pre post : wstate) : bool :=
+  let txs := map snd (map_to_list (s_txs pre)) in
+  let reqs := List.filter (fun t => txkind_eqb (t_kind t) KSwap || txkind_eqb (t_kind t) KLiqDeposit || txkind_eqb (t_kind t) KLiqWithdraw) txs in
+  forallb (fun k =>
+    poolkey_eqb k (poolkey_new Mel Sym) || poolkey_eqb k (poolkey_new Erg Sym)
+    || (match get_pool pre k with None => poolkey_eqb k (poolkey_new Mel Erg) | Some _ => false end)
+    (* before height 978392 the two public networks keep the second coin of a deposit (frozen legacy behaviour,
+       known finding F19): those pools are judged separately *)
+    || negb (Bool.eqb legacy_deposits
+               (legacy_net pre && (s_height pre <? 978392) && existsb (fun t => txkind_eqb (t_kind t) KLiqDeposit) (txs_for_pool reqs k)))
+    || pool_flow_ok pre post k (txs_for_pool reqs k)) (pool_keys_sorted reqs).
+
+(* C15, one price per pool and block: two swaps in the same direction get the same rate up to rounding down,
+   and each is paid in the other side's denomination *)
+Definition swap_pairs (pre post : wstate) (k : denom * denom) (reqs : list tx) (d : denom) : list (N * N) :=
+  flat_map (fun t =>
+    if txkind_eqb (t_kind t) KSwap then
+      match s_coins pre !! coin_key (t_hash t) 0, s_coins post !! coin_key (t_hash t) 0 with
+      | Some c, Some c' => if denom_eqb (cd_denom (c_data c)) d then [(cd_value (c_data c), cd_value (c_data c'))] else []
+      | _, _ => []
+      end
+    else []) reqs.
+Definition one_price (l : list (N * N)) : bool :=
+  forallb (fun a => forallb (fun b => (snd a * fst b <? (snd b + 1) * fst a) || (fst a =? 0) || (2 ^ 120 <=? snd b + 1)) l) l.
+Definition swaps_fair (pre post : wstate) : bool :=
+  let txs := map snd (map_to_list (s_txs pre)) in
+  let reqs := List.filter (fun t => txkind_eqb (t_kind t) KSwap) txs in
+  forallb (fun k =>
+    match get_pool pre k with
+    | Some p =>
+      negb ((0 <? p_lefts p) && (0 <? p_rights p)) ||
+      (let rk := txs_for_pool reqs k in
+       one_price (swap_pairs pre post k rk (fst k)) && one_price (swap_pairs pre post k rk (snd k))
+       && forallb (fun t =>
+            match s_coins pre !! coin_key (t_hash t) 0, s_coins post !! coin_key (t_hash t) 0 with
+            | Some c, Some c' =>
+              if denom_eqb (cd_denom (c_data c)) (fst k) then denom_eqb (cd_denom (c_data c')) (snd k)
+              else if denom_eqb (cd_denom (c_data c)) (snd k) then denom_eqb (cd_denom (c_data c')) (fst k)
+              else cdh_eqb c c'
+            | _, _ => true
+            end) rk)
+    | None => true
+    end) (pool_keys_sorted reqs).
 
 Definition reflect_seal (SO : stf_oracle) (pre post : wstate) (a : option action) : list (N * N) :=
   let ds := state_denoms pre (state_denoms post [Mel; Sym; Erg]) in
@@ -235,6 +304,9 @@ Definition reflect_seal (SO : stf_oracle) (pre post : wstate) (a : option action
         match s_coins pre !! coin_key (t_hash t) 0, s_coins post !! coin_key (t_hash t) 0 with
         | Some c, Some c' => (cd_covhash (c_data c) =? cd_covhash (c_data c')) && bytes_eqb (cd_extra (c_data c)) (cd_extra (c_data c'))
         | _, _ => true end) (map snd (map_to_list (s_txs pre)))) 2
+  ++ flag 15 (pool_flows false pre post) 3
+  ++ flag 15 (pool_flows true pre post) 5
+  ++ flag 15 (swaps_fair pre post) 4
   (* C16 *)
   ++ flag 16 (forallb (fun k => match s_pools post !! poolkey_code k with
                                 | Some p => (0 <? p_lefts p) && (0 <? p_rights p) | None => false end)
